@@ -167,6 +167,10 @@ def _eval_operand(sym, env, locs, op):
     m = re.match(r"^const (true|false)$", op)
     if m:
         return ("bool", m.group(1))
+    m = re.match(r"^const ([iu](?:8|16|32|64|size))::(MIN|MAX)$", op)
+    if m:
+        lo, hi = INT_RANGES[m.group(1)]
+        return ("int", int_lit(lo if m.group(2) == "MIN" else hi))
     m = re.match(r"^const (?:[\w:<>]+::)?(\w+)$", op)
     if m and m.group(1) in sym.consts:
         return ("int", int_lit(sym.consts[m.group(1)]))
@@ -259,14 +263,57 @@ def eval_rvalue(sym, env, locs, dst, rv):
     return eval_operand(sym, env, locs, rv)
 
 
-def paths(sym, header, locs, blocks, args):
+def successors(blocks, bb):
+    """normal-control-flow successors of a block (unwind edges ignored)"""
+    if not blocks[bb]:
+        return []
+    t = blocks[bb][-1].rstrip(";")
+    m = re.match(r"^goto -> (bb\d+)$", t)
+    if m:
+        return [m.group(1)]
+    m = re.match(r"^switchInt\(.*\) -> \[(.*)\]$", t)
+    if m:
+        return [a.split(":")[1].strip() for a in m.group(1).split(",")]
+    m = re.search(r"-> \[(?:return|success): (bb\d+)", t)
+    if m:
+        return [m.group(1)]
+    return []
+
+
+def shortest_paths_to(blocks, target, limit=8):
+    """up to `limit` acyclic block sequences bb0 .. target, shortest first (BFS over simple paths)"""
+    from collections import deque
+    out, q = [], deque([["bb0"]])
+    while q and len(out) < limit:
+        pth = q.popleft()
+        if pth[-1] == target:
+            out.append(pth)
+            continue
+        if len(pth) > 120:
+            continue
+        for nx in successors(blocks, pth[-1]):
+            if nx not in pth and nx in blocks:
+                q.append(pth + [nx])
+        if len(q) > 200000:
+            break
+    return out
+
+
+def paths(sym, header, locs, blocks, args, guide=None):
     """Enumerate all CFG paths. Yields (path_condition_terms, outcome) where outcome is
     ('return', value) | ('panic', msg) | ('unreachable',)."""
     out = []
+    stop_after_block = [False]
 
     def run(bb, env, pc, depth, seen_bbs=frozenset()):
         if depth > 400 or len(out) > 20000:
             raise Untranslatable("CFG too deep / too many paths")
+        if guide is not None:
+            # directed execution: only the block sequence `guide` is followed
+            if depth >= len(guide) or guide[depth] != bb:
+                return
+            if depth == len(guide) - 1:
+                stop_after_block[0] = True
         if sym.havoc_mode:
             if bb in seen_bbs:
                 out.append((pc, ("cut-loop",)))     # bounded: every block at most once per path
@@ -678,9 +725,95 @@ def check_emit_code(mir, src, ob):
     return ["commands::reporters::validate::cfn::single_line::ErrWriter::emit_code"], npaths
 
 
+
+# ------------------------------------------------------------------------------------------------
+# K21b: directed search for `attempt to negate ... overflow` sites (list-index magnitude `-index`).
+# For every such assert in the named functions a shortest CFG path from the entry is executed in havoc mode
+# and the solver is asked for values that reach the site with the failing condition. No site = nothing to prove.
+# ------------------------------------------------------------------------------------------------
+NEGATE_FUNCS = [
+    ("eval_context::retrieve_index", r"(?:(?:rules::)?eval_context::)?retrieve_index", "rule t { L[-2147483648] == 1 }\n", '{"L":[1,2]}\n'),
+    ("eval_context::query_retrieval_with_converter", r"(?:(?:rules::)?eval_context::)?query_retrieval_with_converter",
+     "let k = K[*]\nrule t { M.%k[-2147483648] exists }\n", '{"M":{"a":1,"b":2},"K":["a"]}\n'),
+    ("PathAwareValue::retrieve_index", r"(?:rules::)?path_value::<impl at guard/src/rules/path_value\.rs:\d+:\d+: \d+:\d+>::retrieve_index", None, None),
+]
+
+
+def native_cli(src, rules, data, want_in_output):
+    import tempfile
+    env = dict(os.environ)
+    env["CARGO_NET_OFFLINE"] = "true"
+    env["CARGO_TARGET_DIR"] = os.path.join(os.path.dirname(src), "native-target")
+    env.pop("RUSTUP_TOOLCHAIN", None)
+    b = subprocess.run(["cargo", "build", "--offline", "-p", "cfn-guard", "--bin", "cfn-guard"], cwd=src, env=env,
+                       stdout=subprocess.PIPE, stderr=subprocess.STDOUT, text=True, timeout=1800)
+    exe = os.path.join(env["CARGO_TARGET_DIR"], "debug", "cfn-guard")
+    if b.returncode != 0 or not os.path.exists(exe):
+        return {"reproduced": False, "note": "native build failed", "tail": b.stdout[-400:]}
+    d = tempfile.mkdtemp(prefix="cfnverif_replay_")
+    try:
+        open(os.path.join(d, "d.json"), "w").write(data)
+        open(os.path.join(d, "r.guard"), "w").write(rules)
+        p = subprocess.run([exe, "validate", "-r", os.path.join(d, "r.guard"), "-d", os.path.join(d, "d.json")],
+                           stdout=subprocess.PIPE, stderr=subprocess.STDOUT, text=True, timeout=120)
+        pan = [l for l in p.stdout.splitlines() if "panicked at" in l or want_in_output in l][:3]
+        return {"reproduced": p.returncode == 101 and any(want_in_output in l for l in pan), "exit": p.returncode,
+                "panic": pan, "input": {"data_file": data, "rules_file": rules, "cmd": "cfn-guard validate -r r.guard -d d.json"}}
+    finally:
+        shutil.rmtree(d, ignore_errors=True)
+
+
+def check_negate_sites(mir, src, ob):
+    fns = []
+    for label, fre, rules, data in NEGATE_FUNCS:
+        try:
+            text = find_fn(mir, fre)
+        except Untranslatable:
+            continue            # function renamed/removed: nothing to examine here (Kani harness K15 covers the kernels)
+        header, locs, blocks = parse_fn(text)
+        fns.append(label)
+        targets = [bb for bb, sts in blocks.items() if any("attempt to negate" in st for st in sts)]
+        if not targets:
+            ob.items.append({"obligation": f"{label}/negate-sites", "describe": "no `-x` with overflow check in this function",
+                             "verdicts": {}, "status": "proved-no-site", "model": None})
+            continue
+        for tb in targets:
+            found = None
+            tried = 0
+            for guide in shortest_paths_to(blocks, tb):
+                tried += 1
+                sym = Sym(consts_of(mir), {}, {})
+                sym.havoc_mode = True
+                args = {}
+                for a, ty in locs.items():
+                    if re.match(r"^_\d+$", a) and ty in INT_RANGES and a in header:
+                        args[a] = havoc(sym, ty)
+                paths(sym, header, locs, blocks, args, guide=guide)
+                conds = [f"(and {pc_term(pc)} {fail})" for pc, fail, msg, bb in sym.asserts if bb == tb and "negate" in msg]
+                if not conds:
+                    continue
+                st = ob.check(f"{label}/{tb}/negate-no-overflow", sym.decls, sym.side, "(or " + " ".join(conds) + ")",
+                              f"{label} {tb}: `-index` cannot overflow on the CFG path {' '.join(guide[:6])}.. (directed, havoc mode)")
+                if st == "refuted":
+                    found = ob.items[-1]
+                    break
+                ob.items.pop()      # infeasible along this path: try the next one
+            if found is None:
+                ob.items.append({"obligation": f"{label}/{tb}/negate-no-overflow", "describe": f"site exists; {tried} shortest paths examined, none feasible",
+                                 "verdicts": {}, "status": "inconclusive", "model": None})
+                continue
+            found["counterexample"] = {"index": -2147483648}
+            if rules:
+                found["native_replay"] = native_cli(src, rules, data, "attempt to negate with overflow")
+                found["reproduced"] = found["native_replay"]["reproduced"]
+            else:
+                found["reproduced"] = False
+    return fns
+
+
 PROP_KERNELS = {
     "C06": ["exit"], "C16": ["exit"], "C09": ["status"], "C02": ["status"], "C04": ["status"], "C13": ["cmp"],
-    "C08": ["emit_code"],
+    "C08": ["emit_code", "negate"],
 }
 
 
@@ -700,6 +833,8 @@ def run_for_property(prop, src, tier):
                 fns += check_status_and(mir, src, ob)
             elif k == "cmp":
                 fns += check_compare_tables(mir, ob)
+            elif k == "negate":
+                fns += check_negate_sites(mir, src, ob)
             elif k == "emit_code":
                 f, _n = check_emit_code(mir, src, ob)
                 fns += f
@@ -711,7 +846,7 @@ def run_for_property(prop, src, tier):
     inconc = [o for o in ob.items if o["status"] == "inconclusive"]
     status = "violation" if refuted else ("inconclusive" if inconc else "ok")
     return {"status": status, "functions": fns, "queries": len(ob.items) * len(SOLVERS),
-            "obligations_discharged": sum(1 for o in ob.items if o["status"] == "proved"),
+            "obligations_discharged": sum(1 for o in ob.items if o["status"] in ("proved", "proved-no-site")),
             "vacuity_witnesses_ok": sum(1 for o in ob.items if o["status"] == "witness-ok"),
             "obligations": ob.items, "failures": refuted, "solver_seconds": round(ob.time, 2),
             "solvers": ["z3 4.8.12 (/usr/bin/z3)", "cvc5 1.0"], "encoding": "Int/Bool terms, one term per CFG path (no arithmetic in these bodies => no wrap-around to model)",
